@@ -621,7 +621,7 @@ func c18Sentinel() *C18Case {
 // RunC18 is the check for property C18.
 func RunC18(e *Env) (int, error) {
 	ev := e.Ev
-	n := e.N(700, 12000)
+	n := e.N(700, 8000)
 	fn := func(run int64) harness.RunResult {
 		r := gen.New(e.Seed, "C18", run)
 		c := genC18(r)
